@@ -299,6 +299,13 @@ def r5(ctx):
         if ("23 < args.max_coverage", True) in ga:
             ok = True
     ctx.ob(val.qual, "cap-limited-to-23", ok, val.loc(), "validate rejects --internal-downsampling above 23" if ok else "validate no longer rejects max_coverage > 23")
+    # ... and nothing overrides it afterwards: no function of the phase command assigns args.max_coverage
+    for q_, f_ in sorted(ctx.prog.functions.items()):
+        if not q_.startswith(PH + "."):
+            continue
+        for s_ in util.store_sites(f_.node):
+            if s_.kind == "attr" and s_.target.attr == "max_coverage" and isinstance(s_.target.value, ast.Name) and s_.target.value.id in ("args", "namespace", "options"):
+                ctx.ob(f_.qual, "cap-not-overridden:%s" % s_.text()[:40], False, f_.loc(s_.stmt), "`%s` replaces the value of --internal-downsampling after it was validated: the solver can get more reads per variant than the cap (and more than 23)" % s_.text()[:80])
     aa = ctx.func(PH + ".add_arguments")
     dest = [c for c in ctx.prog.calls_in(aa.node) if any(k.arg == "dest" and isinstance(k.value, ast.Constant) and k.value.value == "max_coverage" for k in c.keywords)]
     ok = (None if not dest else (len(dest) == 1 and any(isinstance(a, ast.Constant) and a.value == "--internal-downsampling" for a in dest[0].args) and any(k.arg == "type" and u(k.value) == "int" for k in dest[0].keywords)))
